@@ -45,6 +45,14 @@ void *memset(void *d, int c, size_t n) { u8 *x = (u8 *)d; while (n--) { *x++ = (
 int memcmp(void const *a, void const *b, size_t n) { u8 const *x = (u8 const *)a, *y = (u8 const *)b; for (; n--; ++x, ++y) { if (*x != *y) { return *x < *y ? -1 : 1; } } return 0; }
 size_t strlen(char const *s) { size_t n = 0; while (s[n]) { ++n; } return n; }
 int strcmp(char const *a, char const *b) { while (*a && *a == *b) { ++a; ++b; } return (u8)*a - (u8)*b; }
+/* the rest of what a library source may reasonably take from <string.h> (seeded change C18-M uses memchr): a change that calls one of them must
+   still link here, or the whole configuration is lost to it */
+void *memchr(void const *s, int c, size_t n) { u8 const *x = (u8 const *)s; for (; n--; ++x) { if (*x == (u8)c) { return (void *)(size_t)x; } } return 0; }
+void *memrchr(void const *s, int c, size_t n) { u8 const *x = (u8 const *)s + n; while (n--) { if (*--x == (u8)c) { return (void *)(size_t)x; } } return 0; }
+int strncmp(char const *a, char const *b, size_t n) { for (; n--; ++a, ++b) { if (*a != *b || !*a) { return (u8)*a - (u8)*b; } } return 0; }
+size_t strnlen(char const *s, size_t m) { size_t n = 0; while (n < m && s[n]) { ++n; } return n; }
+char *strchr(char const *s, int c) { for (;; ++s) { if (*s == (char)c) { return (char *)(size_t)s; } if (!*s) { return 0; } } }
+char *strcpy(char *d, char const *s) { char *r = d; while ((*d++ = *s++)) {} return r; }
 /* 64-bit division on a 32-bit target goes through these (normally in libgcc / compiler-rt): plain shift-and-subtract */
 u64 __udivmoddi4(u64 n, u64 d, u64 *rem)
 {
